@@ -13,9 +13,9 @@ import (
 	"github.com/Comcast/sheens/match"
 	"github.com/Comcast/sheens/sio"
 	"pgregory.net/rapid"
-	"verif/internal/crewh"
-	"verif/internal/ev"
-	"verif/internal/jsongen"
+	"verif/lib/crewh"
+	"verif/lib/ev"
+	"verif/lib/jsongen"
 )
 
 // ---------------------------------------------------------------- C15
